@@ -66,7 +66,7 @@ def run(r):
                 owners.append(rec)
         hdr2 = HEADER + "\nFrom Xdis Require Import Model.Unmarshal Model.UnmarshalObs Model.Marsh Gen.Dispatch Proofs.MarshRoundTrip."
         chk = ("fun c : Z * list (Z * list Z) * list Z * list Z => let '(m, tbl, orig, written) := c in "
-               "match load (xdis_cfg m) orig with Ok (v, _) => zlist_eqb (dumps (fun b => match zassoc b tbl with Some s => s | None => [] end) (posonly_read (cpy_cfg m)) v) written | Err _ => false end")
+               "match load (xdis_cfg m) orig with Ok (v, _) => zlist_eqb (dumps (fun b => match zassoc b tbl with Some s => s | None => [] end) (posonly_read (cpy_cfg m)) false v) written | Err _ => false end")
         bad, errs = C.coq_cases(r.wd, "payload", hdr2, "Z * list (Z * list Z) * list Z * list Z", chk, lits, chunk=6)
         if errs:
             raise RuntimeError(f"payload cases: {errs[0]}")
